@@ -7,7 +7,7 @@ import re
 
 from ..core import Checker, Rule, attr_calls, callee_is, calls_in, kwarg, resolved_calls, short
 from ..interp import Pins, find_nodes, unparse
-from .util import enclosing_loop, enclosing_stmt, every_iteration_reaches, fmt, is_const, parent, returns_of, single_def
+from .util import ancestors, enclosing_loop, on_path_before, enclosing_stmt, every_iteration_reaches, fmt, is_const, parent, returns_of, same, single_def
 
 P = ("C10", "C01", "C06")
 LC = "literal_duplication:LiteralCollector"
@@ -128,6 +128,32 @@ def r_rebuild(ck: Checker) -> None:
     comps = [n for n in find_nodes(func.node, lambda n: isinstance(n, ast.ListComp))]
     removed = [unparse(c).replace(" ", "") for c in comps if f"notin{rb}.original_literals" in unparse(c).replace(" ", "")]
     ck.add("exactly the original literals of the occurrence are removed (in each of the three scopes)", len(removed) == 3, func, func.node, f"{removed}", "")
+    # what is left of the rule body in each scope
+    rets = [r for r in returns_of(func) if r.value is not None]
+    ck.need(len(rets) == 1 and isinstance(rets[0].value, ast.Name), "rebuild returns the new body")
+    nb = rets[0].value.id  # type: ignore[union-attr]
+    rule_d = single_def(func, "rule")
+    ck.need(rule_d is not None, "the rule is looked up once")
+    apps = [c for c in attr_calls(func, "append") if unparse(c.func.value) == nb]  # type: ignore[attr-defined]
+    ck.need(len(apps) == 3, "the rewritten part is appended to the new body in each scope")
+    for app in apps:
+        body_scope = it.holds(app, f"not {rb}.sub_ast")
+        effects = []
+        before = sorted(on_path_before(func, app), key=lambda s: s.lineno)
+        for node in [n for s in before for n in ast.walk(s) if isinstance(n, (ast.Assign, ast.AnnAssign, ast.AugAssign, ast.Call))]:
+            if isinstance(node, ast.Call):
+                if isinstance(node.func, ast.Attribute) and unparse(node.func.value) == nb:
+                    effects.append(node)
+            elif any(isinstance(n, ast.Name) and n.id == nb for t in (node.targets if isinstance(node, ast.Assign) else [node.target]) for n in ast.walk(t)):
+                effects.append(node)
+        want = f"[lit for lit in rule.body if lit not in {rb}.original_literals]" if body_scope else f"[lit for lit in rule.body if lit != {rb}.sub_ast]"
+        got = [unparse(e.value) if isinstance(e, (ast.Assign, ast.AnnAssign)) and e.value is not None else unparse(e) for e in effects]
+        ok = len(effects) == 1 and isinstance(effects[0], (ast.Assign, ast.AnnAssign)) and same(got[0], want)
+        if not ok and not body_scope and len(effects) == 2:  # copy of the body, then remove the rewritten literal
+            ok = got[0] in ("list(rule.body)", "[*rule.body]", "rule.body[:]") and same(got[1], f"{nb}.remove({rb}.sub_ast)")
+        ck.add("body scope: all other body literals are kept" if body_scope else "condition / aggregate scope: every body literal except the rewritten one is kept", ok, func, app,
+               f"new body before the append is built by {got}; expected `{want}`",
+               "the aux atom stands for the set only where it was inserted: inside a condition it does not cover an equal literal at body level, so nothing else may disappear from the body")
 
 
 def r_execute(ck: Checker) -> None:
